@@ -22,6 +22,9 @@ type Op struct {
 	Order    int    `json:"order,omitempty"` // apply: 0 linear, 1 linear-skip, 2 non-linear
 	Allow    bool   `json:"allow,omitempty"` // apply: --allow-dirty
 	Baseline string `json:"baseline,omitempty"`
+	// Via: where the execution order is stated: 0 the --exec-order flag; 1 the selected env of a project file
+	// (migration { exec_order = ... }) and no flag; 2 the flag, while the env states another order (the flag wins)
+	Via int `json:"via,omitempty"`
 }
 
 type CLICase struct {
@@ -292,7 +295,19 @@ func checkCLI(c CLICase) (CLIOutcome, error) {
 			if want.Undefined != "" {
 				continue
 			}
-			args := []string{"migrate", "apply", "--dir", "file://m", "--url", url, "--tx-mode", "none", "--exec-order", orderFlag[op.Order]}
+			args := []string{"migrate", "apply", "--dir", "file://m", "--url", url, "--tx-mode", "none"}
+			if op.Via != 1 {
+				args = append(args, "--exec-order", orderFlag[op.Order])
+			}
+			if op.Via != 0 {
+				inEnv := op.Order
+				if op.Via == 2 {
+					inEnv = (op.Order + 1) % 3
+				}
+				sb.WriteFile("atlas.hcl", fmt.Sprintf("env \"x\" {\n  migration {\n    exec_order = %s\n  }\n}\n", []string{"LINEAR", "LINEAR_SKIP", "NON_LINEAR"}[inEnv]))
+				args = append(args, "--env", "x", "-c", "file://atlas.hcl")
+				out.Classes = append(out.Classes, fmt.Sprintf("cli/apply/exec-order-via=%s", []string{"flag", "env", "flag-over-env"}[op.Via]))
+			}
 			if op.Allow {
 				args = append(args, "--allow-dirty")
 			}
